@@ -30,14 +30,14 @@ PROPS = {
         ]),
     'C10': dict(
         units=['observer', 'steps'], level='proof',
-        replays=[],
+        replays=['c10_clone_dropped_before_first_stabilise.rs'],
         uncovered=[
             'the iteration of the loops whose bodies are under contract as functions of one item (rule R7h): that every queued observer / handler is visited, once, is pinned only by a non-strict frame (drain) or not at all',
             'that Observer::clone clones the sentinel (derive(Clone)): trusted',
         ]),
     'C09': dict(
         units=['handlers', 'observer', 'nodepred', 'steps'], level='proof',
-        replays=['c09_spurious_changed.rs', 'c09_double_unsubscribe.rs', 'c09_state_unsubscribe_before_first_stabilise.rs'],
+        replays=['c09_spurious_changed.rs', 'c09_double_unsubscribe.rs', 'c09_state_unsubscribe_before_first_stabilise.rs', 'c05_last_handle_dropped_in_own_callback.rs'],
         uncovered=[
             'that a due callback is actually invoked (liveness); the contracts pin the argument of every call that is made, and the handler state after it',
             'the iteration of the delivery loops (their per-item bodies are under contract, rule R7h; that every handler is visited is not)',
@@ -59,7 +59,7 @@ PROPS = {
         ]),
     'C07': dict(
         units=['observer', 'var', 'heaps', 'steps'], level='other',
-        replays=[],
+        replays=['c10_clone_dropped_before_first_stabilise.rs'],
         uncovered=[
             '"all observers reflect one assignment of variable values" (C01-level)',
             'that value_opt writers are reachable only from stabilise or expert invalidate: written argument, not machine-checked',
@@ -80,7 +80,7 @@ PROPS = {
         ]),
     'C05': dict(
         units=['nodepred', 'observer', 'var', 'heightwalk', 'steps'], level='other',
-        replays=[],
+        replays=['c05_last_handle_dropped_in_own_callback.rs'],
         uncovered=[
             'the became_unnecessary cascade as a whole and the cone statement itself (per step: who is rechecked / dequeued / linked is under contract)',
             'two recompute_heap.insert sites rely on a debug assertion only (maybe_change_value_manual, state_add_parent)',
